@@ -45,10 +45,22 @@ def gen_case(rng):
     return {'kind': 'movefar', 'steps': steps}
 
 
+def classify(case, failure):
+    # F59 (known): a compartment moved into a collection whose glob schema declares more than it holds is not given
+    # the collection's sub-schema (`_add`, `_generate`, `_divide` do that): the next view cannot be built
+    if case.get('wider') and failure.startswith('move-raised: Exception: (\'vol\',) is not a valid path') \
+            and any(s['op'] == 'move' and s['to'] == 'envB' for s in case['steps']):
+        return 'F59'
+    return None
+
+
 def corpus():
     return [{'kind': 'movefar', 'steps': [{'op': 'move', 'from': 'envA', 'to': 'envB', 'key': 'a', 'far': True},
                                            {'op': 'none'},
                                            {'op': 'move', 'from': 'envB', 'to': 'envA', 'key': 'c', 'far': True}]},
+            # F59 (known finding): the target collection declares a variable the moved compartment does not hold
+            {'kind': 'movefar', 'wider': True, 'expect_known': 'F59',
+             'steps': [{'op': 'move', 'from': 'envA', 'to': 'envB', 'key': 'a', 'far': False}, {'op': 'none'}]},
             {'kind': 'movefar', 'steps': [{'op': 'move', 'from': 'envA', 'to': 'envB', 'key': 'b', 'far': False},
                                            {'op': 'add', 'from': 'envA', 'key': 'n1'},
                                            {'op': 'delete', 'from': 'envB', 'key': 'c'}]}]
@@ -81,6 +93,8 @@ def run_impl(case):
         name = f'movefar-viewer-{next(_ids)}'
 
         def ports_schema(self):
+            if case.get('wider'):
+                return {'A': {'*': {'x': {'_default': 0}}}, 'B': {'*': {'x': {'_default': 0}, 'vol': {'_default': 7}}}}
             return {'A': {'*': {'x': {'_default': 0}}}, 'B': {'*': {'x': {'_default': 0}}}}
 
         def next_update(self, timestep, states):
